@@ -92,6 +92,7 @@ def scenario(draw, n, mode):
         pools[j0]['fit1'] = [F0, r * F0]
         pools[j0]['twin_zero'] = True
     sc = {'law': law, 'filters': filters, 'pools': pools, 'mode': mode, 'int_pools': int_pools,
+          'flag_dtype': draw(gen.FLAG_DTYPES),
           'av_range': draw(st.sampled_from([[0., 10.], [-1e3, 1e3], [0., 1.], [2., 2.]])),
           'theta': draw(st.lists(st.floats(0.5, 10., allow_nan=False), min_size=n, max_size=n))}
     if mode == '2d':
@@ -164,7 +165,7 @@ def make_source(sc, vec, ign='ignA', limits='asis', fit1_as4=False, nine_as_zero
                 flags.append(f)
                 flux.append(p['lim'][0])
                 err.append(p['lim'][1])
-    src = {'name': 'src', 'x': 0., 'y': 0., 'flags': flags, 'flux': flux, 'err': err}
+    src = {'name': 'src', 'x': 0., 'y': 0., 'flags': flags, 'flux': flux, 'err': err, 'flag_dtype': sc.get('flag_dtype')}
     if sc.get('int_pools') and all(abs(v) < 1e15 and float(v) == int(v) for v in flux):
         # whole-number photometry reaches the fitter as the integer arrays numpy makes of it; one non-integral value
         # anywhere (e.g. in an ignored band) makes the whole array floating point - the fits must not depend on that
